@@ -46,6 +46,7 @@ static const char *PROP = "all";
 static long cases, distinct, fails;
 static int want(const char *p) { return strcmp(PROP, "all") == 0 || strcmp(PROP, p) == 0; }
 static const char *scen = "?";
+static long n_align_retry;
 static void failf(const char *prop, const char *fmt, const char *a, const char *b)
 {
     char m[900];
@@ -490,13 +491,26 @@ static void set_gram(decoder_t *d, const char *file, int fsg)
     if (fsg) { fsg_model_t *m = fsg_model_readfile(path, decoder_logmath(d), config_float(decoder_config(d), "lw")); if (!m || decoder_set_fsg(d, m) < 0) { printf("FAIL fsg %s\n", path); exit(1); } }
     else if (decoder_set_jsgf_file(d, path) < 0) { printf("FAIL grammar %s\n", path); exit(1); }
 }
-enum { ONE_CALL, BLOCKS, FLOAT32, BLOCKS_EARLY };
+enum { ONE_CALL, BLOCKS, FLOAT32, BLOCKS_EARLY, FULL_POLL };
 static void decode(decoder_t *d, int slot, int mode)
 {
     size_t pos = 0, i;
     decoder_set_cmn(d, CMN0);
     decoder_start_utt(d);
     if (mode == ONE_CALL) decoder_process_int16(d, pcm[slot], npcm[slot], 0, 0);
+    else if (mode == FULL_POLL) {
+        /* batch mode (full_utt): every frame is searched by this one call, so end_utt adds no frame; results are asked
+         * for BEFORE end_utt (partial: any path prefix) and again after it (final: must reach the final state) */
+        const char *ph;
+        decoder_process_int16(d, pcm[slot], npcm[slot], 0, 1);
+        ph = decoder_hyp(d, NULL);
+        if (ph && active_fsg(d) && want("C01")) {
+            char w[64][80]; int nw = split_words(ph, w, 64);
+            cases++;
+            if (fsg_accepts(active_fsg(d), w, nw) == 0) failf("C01", "partial result \"%s\" is not a path prefix of the active grammar%s", ph, NULL);
+        }
+        (void)decoder_seg_iter(d); (void)decoder_result_json(d, 0, 0);
+    }
     else if (mode == FLOAT32) { for (i = 0; i < npcm[slot]; i++) fpcm[i] = pcm[slot][i] / 32768.0f; decoder_process_float32(d, fpcm, npcm[slot], 0, 0); }
     else while (pos < npcm[slot]) {
         size_t n = npcm[slot] - pos < 2048 ? npcm[slot] - pos : 2048;
@@ -513,6 +527,17 @@ static void decode(decoder_t *d, int slot, int mode)
                 double v = atof(c), m = cm->cmn_mean[q];
                 if (fabs(v - m) > 0.006 + 1e-4 * fabs(m)) { char a[40], b[40]; snprintf(a, 40, "%g", v); snprintf(b, 40, "%g", m); failf("C18", "channel-normalisation text exported mid-utterance says %s where the state is %s", a, b); break; }
                 c = strchr(c, ','); if (!c) break; c++;
+            }
+        }
+        /* (C04) an alignment request that fails mid-utterance (the aligner cannot always end in the last state of a
+         * partial result) must fail again when repeated without new audio: no half-built alignment is handed out */
+        if (want("C04") && decoder_hyp(d, NULL)) {
+            alignment_t *a1 = decoder_alignment(d);
+            cases++;
+            if (a1 == NULL) {
+                alignment_t *a2 = decoder_alignment(d);
+                n_align_retry++;
+                if (a2 != NULL) failf("C04", "an alignment request that failed returns an alignment when repeated without new audio (half-built alignment cached)%s%s", NULL, NULL);
             }
         }
         /* partial result: the label sequence of some path leaving the start state */
@@ -633,6 +658,17 @@ int main(int argc, char **argv)
         for (q = 0; q < 3; q++) { scen = "en-us goforward.raw cut short (26000 / 20000 / 13000 samples), goforward.fsg"; npcm[0] = cut[q]; decode(d, 0, ONE_CALL); check_all(d, 0); decode(d, 0, BLOCKS); check_all(d, 0); }
         npcm[0] = full;
     }
+    /* competing endings: the best path in the last frame need not be the best path that reaches the final state; results
+     * polled before end_utt in batch mode must not stick */
+    {
+        static const size_t cut[] = { 22000, 24000, 26000, 30000 }; size_t full = npcm[0]; int q;
+        if (decoder_set_jsgf_string(d, "#JSGF V1.0;\ngrammar g;\npublic <s> = go forward tan | go forward ten meters;\n") == 0) {
+            for (q = 0; q < 4; q++) { scen = "en-us goforward.raw cut short (22000..30000 samples), grammar with competing endings, batch mode with results polled before end_utt";
+                npcm[0] = cut[q]; decode(d, 0, FULL_POLL); check_all(d, 0); decode(d, 0, BLOCKS); check_all(d, 0); }
+            npcm[0] = full;
+        } else failf("C09", "grammar with competing endings refused%s%s", NULL, NULL);
+        set_gram(d, "goforward.fsg", 1);
+    }
     /* a grammar whose probabilities sit on null transitions (also the one into the final state) and on alternatives */
     {
         char path[700]; FILE *f; fsg_model_t *m;
@@ -717,6 +753,7 @@ int main(int argc, char **argv)
     decode(d, 3, BLOCKS); check_all(d, 1);
     decoder_free(d);
     if (known_c04_scores && want("C04")) printf("KNOWN alignment word scores differ from the acoustic scores of the first pass\n");
+    printf("SAMPLE alignment requests that failed mid-utterance and were repeated: %ld\n", n_align_retry);
     printf("CASES %ld\nDISTINCT %ld\n", cases, distinct);
     return fails ? 1 : 0;
 }
